@@ -7,7 +7,7 @@ from .c12_translate import translate  # noqa: F401  (translated fragments, see t
 
 PID = "C12"
 TITLE = "Geometric primitives and boxes obey their algebra, with no side effects"
-LEAN_MODULES = ["Mouette.Props.C12", "Mouette.Props.C12R", "Mouette.Props.C12G"]
+LEAN_MODULES = ["Mouette.Props.C12", "Mouette.Props.C12R", "Mouette.Props.C12G", "Mouette.Props.C12T"]
 REQUIRED_THEOREMS = [
     "project_in_box", "project_realises_l1", "project_realises_linf", "project_realises_l2", "contained_dist_zero",
     "union_contains", "inter_is_overlap", "doIntersect_iff_overlap", "ofPoints_contains", "ofPoints_tight",
@@ -20,6 +20,9 @@ REQUIRED_THEOREMS = [
     "signedAngle_antisymm", "signedAngle_not_antisymm_witness", "cotan_reciprocal_tan", "roots_pow",
     # bridges Generated (translated from the current source) = Model (Props/C12G.lean)
     "gen_cross_eq", "gen_det2_eq", "gen_det3_eq", "gen_rot2_eq", "gen_rotax_eq", "gen_thresholds_eq",
+    # round 2 (Props/C12T.lean): executable turn-based models linked to the real specifications; AABB.pad
+    "principalTurn_exact", "principalTurn_spec", "angleDiffTurn_exact", "angleDiffTurn_spec", "rootTurns_pow",
+    "cotanPair_scale", "cotanPair_eq_angle3", "pad_clamped", "pad_superset", "padv_frame", "padAt_box",
 ]
 TRUSTED = [
     "Lean 4.33.0 kernel; axioms ⊆ {propext, Classical.choice, Quot.sound}",
@@ -36,7 +39,9 @@ RULE = ("(a) histories of 4-14 operations on 3-6 caller arrays (dimension 1-6, d
         "negative, contains_point, project, distance l1/linf/l2, is_empty, center, span, Vec.normalized incl. the zero vector); every call is "
         "wrapped by a monitor that snapshots all arrays (bytes, identity) and numpy.geterr() before/after, also when the call raises; "
         "(b) single primitive calls (cross, det_2x2, det_3x3, rotate_2d, rotate_around_axis, circumcenter, intersect_2lines2D, "
-        "project_to_plane, distance_to_segment2D, triangle_area_2D, angle_3pts, signed_angle_2vec3D, cotan, principal_angle, angle_diff, roots) "
+        "project_to_plane, distance_to_segment2D, triangle_area_2D, angle_3pts, signed_angle_2vec3D, cotan, principal_angle, angle_diff, roots; "
+        "the last three also on EXACT inputs given in turns, multiples of pi/k, compared with the executable turn models; pad vectors given "
+        "as float / caller ndarray / Vec view, incl. negative entries) "
         "on random and degenerate inputs, compared with exact arithmetic and with their identities; non-trivial = distinct case with at least "
         "one box operation on an existing box returning a value (a) / a non-degenerate primitive evaluation (b)")
 
@@ -96,7 +101,7 @@ class Monitor:
             np.seterr(**before)      # put it back so that the rest of the history is observed from the caller's state
         for label, arr, b, sh, dt in snaps:
             if arr.tobytes() != b or arr.shape != sh or arr.dtype != dt:
-                self.effects.append((f"mutates/{name}/{'caller-array' if not label.startswith('box') else 'other-box'}",
+                self.effects.append((f"mutates/{name}/{'argument' if label.startswith('arg') else 'caller-array' if not label.startswith('box') else 'other-box'}",
                                      f"{label} changed during {name} ({how})"))
         return how, out
 
@@ -235,12 +240,13 @@ def _run_hist(case, want_oracle):
                                 if not (all(r <= x and r <= y for r, x, y in zip(rlo, alo, blo)) and
                                         all(r >= x and r >= y for r, x, y in zip(rhi, ahi, bhi))):
                                     law("union/contains", "union does not contain both operands", f"step {step}")
-            elif k in ("padf", "padv"):
+            elif k in ("padf", "padv", "padV"):
                 b = box_arg(o[1])
                 if b is None: res = "nobox"
                 else:
                     mon.watched += others(b)
-                    arg = float(Fraction(o[2])) if k == "padf" else arrs[o[2]]
+                    # padding given as float / as the caller's ndarray / as a Vec view of the caller's ndarray
+                    arg = float(Fraction(o[2])) if k == "padf" else arrs[o[2]] if k == "padv" else Vec(arrs[o[2]])
                     before = bounds(b)
                     how, out = mon.call("AABB.pad", b.pad, (arg,), may_modify=(b._p1, b._p2))
                     res = "-" if how == "return" else _map_exc(out)
@@ -252,6 +258,8 @@ def _run_hist(case, want_oracle):
                         want_hi = [h + x if h not in (math.inf, -math.inf) else h for h, x in zip(before[1], p)]
                         if lo != want_lo or hi != want_hi:
                             law("pad/value", "pad does not enlarge the box by max(pad,0) on each side", f"step {step}")
+                        if not (all(x <= y for x, y in zip(lo, before[0])) and all(x >= y for x, y in zip(hi, before[1]))):
+                            law("pad/superset", "the padded box does not contain the original box", f"step {step}")
             elif k in ("contains", "project", "dist"):
                 b = box_arg(o[1])
                 if b is None: res = "nobox"
@@ -455,6 +463,31 @@ def _run_prim(case, want_oracle):
                 if not (-math.pi - 1e-12 <= out <= math.pi + 1e-12): law(f"{f}/range", f"{f} outside [-pi, pi]", str(out))
                 kk = (ref - out) / (2 * math.pi)
                 if abs(kk - round(kk)) > 1e-9 * (1 + abs(kk)): law(f"{f}/congruent", f"{f} is not congruent to its input modulo 2pi", f"{ref} -> {out}")
+        elif f in ("pangleT", "adiffT"):
+            # exact inputs: angles given in TURNS (rationals), a = 2*pi*t
+            a = 2 * math.pi * float(Fraction(A[0])); b = 2 * math.pi * float(Fraction(A[1])) if f == "adiffT" else 0.0
+            if f == "pangleT":
+                how, out = mon.call("principal_angle", maths.principal_angle, (a,)); ref = Fraction(A[0])
+            else:
+                how, out = mon.call("angle_diff", maths.angle_diff, (a, b)); ref = Fraction(A[0]) - Fraction(A[1])
+            obs = "fl:" + _fr(out)
+            if want_oracle:
+                if not (-math.pi - 1e-12 <= out <= math.pi + 1e-12): law(f"{f}/range", f"{f[:-1]} outside [-pi, pi]", str(out))
+                kk = float(ref) - out / (2 * math.pi)
+                if abs(kk - round(kk)) > 1e-9 * (1 + abs(kk)): law(f"{f}/congruent", f"{f[:-1]} is not congruent to its input modulo 2pi", f"{float(ref)} turns -> {out}")
+        elif f == "rootsT":
+            t = float(Fraction(A[0])); n = int(A[1])
+            c = complex(math.cos(2 * math.pi * t), math.sin(2 * math.pi * t))
+            how, out = mon.call("roots", maths.roots, (c, n))
+            if how == "raise": obs = _map_exc(out)
+            else:
+                obs = "Z " + " ".join([str(len(out))] + [_fr(z.real) + " " + _fr(z.imag) for z in out])
+                if want_oracle:
+                    if len(out) != n: law("roots/count", "roots does not return n values")
+                    for r in out:
+                        if abs(r ** n - c) > 1e-9 * n: law("roots/power", "an n-th root raised to n does not give back the unit input", f"{r}**{n} vs {c}"); break
+                    if any(abs(out[i] - out[j]) < 1e-9 for i in range(len(out)) for j in range(i)):
+                        law("roots/distinct", "roots returns repeated values")
         elif f == "roots":
             c = complex(float(Fraction(A[0])), float(Fraction(A[1]))); n = int(A[2])
             how, out = mon.call("roots", maths.roots, (c, n))
@@ -511,12 +544,17 @@ def model_request(case):
         for o in case["ops"]:
             if o[0] == "ofp":
                 toks += ["ofp", str(len(o[1]))] + [str(i) for i in o[1]] + [o[2]]
+            elif o[0] == "padV":
+                toks += ["padv", str(o[1]), str(o[2])]
             else:
                 toks += [str(x) for x in o]
         return " ".join(toks)
     f, A = case["f"], case["args"]
-    if f in ("cross", "det2", "det3", "circ", "isect", "pplane", "dseg", "area2", "angle3", "sangle"):
+    if f in ("cross", "det2", "det3", "circ", "isect", "pplane", "dseg", "area2", "angle3", "sangle", "cotan"):
         return " ".join(["prim", f] + [c for v in A for c in v])
+    if f == "pangleT": return f"prim pangleT {A[0]}"
+    if f == "adiffT": return f"prim adiffT {A[0]} {A[1]}"
+    if f == "rootsT": return f"prim rootsT {A[0]} {A[1]}"
     if f in ("rot2", "rotax"):
         ang = float(Fraction(A[-1]))
         c, s = Fraction(math.cos(ang)), Fraction(math.sin(ang))
@@ -529,7 +567,7 @@ def model_request(case):
             toks += [G.fs(Fraction(x / n)) for x in ax]
         toks += [G.fs(c), G.fs(s)]
         return " ".join(toks)
-    return None   # cotan, pangle, adiff, roots: identities only (oracle), no rational model output
+    return None   # pangle, adiff, roots on arbitrary radians: identities only (oracle); exact inputs go through pangleT/adiffT/rootsT
 
 
 def _parse_vec(tok_list):
@@ -591,6 +629,30 @@ def compare(case, model, impl):
         cr = [d[1] * N[2] - d[2] * N[1], d[2] * N[0] - d[0] * N[2], d[0] * N[1] - d[1] * N[0]]
         sc = (max(abs(x) for x in C + r) + 1) * (max(abs(x) for x in N) + 1)
         return None if max(abs(x) for x in cr) <= 1e-7 * sc else f"circumcenter off the axis of the circumscribed circle: model '{model}' vs implementation '{impl}'"
+    if f == "cotan":
+        if impl.startswith("err"):
+            zero = case["args"][0] == case["args"][1] or case["args"][2] == case["args"][1]
+            return None if zero else f"cotan raised on non-degenerate input: {impl}"   # zero vector: normalized raises
+        d, s2 = Fraction(model.split()[1]), Fraction(model.split()[2])
+        got = _num(impl[3:])
+        if s2 == 0:
+            return None       # degenerate angle (0 or pi): the code divides by a (nearly) zero sine
+        want = float(d) / math.sqrt(s2)
+        return None if abs(want - got) <= 1e-7 * (1 + abs(want)) else f"cotan: model {want} vs implementation {got}"
+    if f in ("pangleT", "adiffT"):
+        want = 2 * math.pi * float(Fraction(model.split()[1]))
+        got = _num(impl[3:])
+        dlt = (got - want) % (2 * math.pi)
+        scale = 1 + abs(float(Fraction(case["args"][0]))) + (abs(float(Fraction(case["args"][1]))) if f == "adiffT" else 0)
+        return None if min(dlt, 2 * math.pi - dlt) <= 1e-9 * scale * 10 else f"{f}: model {want} vs implementation {got} (mod 2pi)"
+    if f == "rootsT":
+        if impl.startswith("err"): return f"roots raised: {impl}"
+        mt = model.split(); turns = [Fraction(x) for x in mt[2:2 + int(mt[1])]]
+        it = impl.split(); zs = [complex(_num(it[2 + 2 * j]), _num(it[3 + 2 * j])) for j in range(int(it[1]))]
+        ws = [complex(math.cos(2 * math.pi * float(u)), math.sin(2 * math.pi * float(u))) for u in turns]
+        if len(zs) != len(ws): return f"roots: {len(zs)} values vs {len(ws)} in the model"
+        ok = all(any(abs(z - w) <= 1e-9 for w in ws) for z in zs) and all(any(abs(z - w) <= 1e-9 for z in zs) for w in ws)
+        return None if ok else f"roots: implementation {zs[:4]} vs model turns {[str(u) for u in turns][:4]}"
     if f == "angle3":
         s2, c = model.split()[1:3]
         want = math.atan2(math.sqrt(Fraction(s2)), float(Fraction(c)))
@@ -667,8 +729,8 @@ def _gen_hist(rng, maxops):
             nb += 1
         elif r < 0.26: ops.append([rng.choice(["inter", "union"]), rng.randrange(nb), rng.randrange(nb)]); nb += 1
         elif r < 0.34: ops.append(["doint", rng.randrange(nb), rng.randrange(nb)])
-        elif r < 0.44: ops.append(["padf", rng.randrange(nb), rng.choice(["1/2", "1", "0", "-1", "3/4"])])
-        elif r < 0.50: ops.append(["padv", rng.randrange(nb), anyi()])
+        elif r < 0.40: ops.append(["padf", rng.randrange(nb), rng.choice(["1/2", "1", "0", "-1", "3/4"])])
+        elif r < 0.50: ops.append([rng.choice(["padv", "padV"]), rng.randrange(nb), rng.choice(same) if rng.random() < 0.8 else anyi()])
         elif r < 0.58: ops.append(["contains", rng.randrange(nb), anyi()])
         elif r < 0.70: ops.append(["project", rng.randrange(nb), anyi()])
         elif r < 0.82: ops.append(["dist", rng.randrange(nb), anyi(), rng.choice(["l1", "linf", "l2"])])
@@ -690,7 +752,7 @@ def _v(rng, d, kind=None):
 
 def _gen_prim(rng):
     f = rng.choice(["cross", "det2", "det3", "rot2", "rotax", "circ", "isect", "pplane", "dseg", "area2", "angle3", "sangle", "cotan",
-                    "pangle", "adiff", "roots", "circ", "rotax", "sangle"])
+                    "pangle", "adiff", "roots", "circ", "rotax", "sangle", "pangleT", "adiffT", "rootsT", "pangleT", "adiffT", "rootsT"])
     if f in ("cross",): args = [_v(rng, 3), _v(rng, 3)]
     elif f == "det2": args = [_v(rng, 2), _v(rng, 2)]
     elif f == "det3": args = [_v(rng, 3), _v(rng, 3), _v(rng, 3)]
@@ -721,6 +783,15 @@ def _gen_prim(rng):
                 G.fs(Fraction(rng.randint(-64, 64), 8)) if rng.random() < 0.93 else "0"]
     elif f in ("pangle", "adiff"):
         args = [G.fs(Fraction(rng.randint(-4000, 4000), 64)), G.fs(Fraction(rng.randint(-4000, 4000), 64))]
+    elif f in ("pangleT", "adiffT"):
+        # multiples of pi/k as rationals of a turn: p/(2k), incl. the discontinuity (half turns) and whole turns
+        def turn():
+            k = rng.choice([1, 2, 3, 4, 5, 6, 8, 12, 16, 7, 9])
+            return G.fs(Fraction(rng.randint(-12 * k, 12 * k), 2 * k))
+        args = [turn(), turn()]
+    elif f == "rootsT":
+        k = rng.choice([1, 2, 3, 4, 5, 6, 8, 12])
+        args = [G.fs(Fraction(rng.randint(-4 * k, 4 * k), 2 * k)), str(rng.randint(1, 8))]
     else:
         args = [_dy(rng), _dy(rng), str(rng.randint(1, 8))]
     c = {"t": "prim", "f": f, "args": args}
